@@ -563,6 +563,17 @@ impl Observer for Obs {
         }
     }
 
+    fn update_total(&mut self, total: usize) {
+        let mut g = self.0.borrow_mut();
+        let sh = &mut *g;
+        let proj = &sh.loaded;
+        let expect = sh.wanted.iter().filter(|u| proj.step(**u).map(|s| !s.phony).unwrap_or(false)).count();
+        if total != expect {
+            let phase = sh.phase;
+            sh.v("C19", "displayed-total", format!("the total n2 displays is {} but {} non-phony steps are wanted (phase {})", total, expect, phase));
+        }
+    }
+
     fn task_finished(&mut self, id: usize, outcome: Outcome, _output: &[u8]) {
         let mut g = self.0.borrow_mut();
         let sh = &mut *g;
